@@ -23,38 +23,27 @@ class Oracle(BaseOracle):
                 k = _wf_kind(probs[0])
                 self.violation(dict(base, oracle="wf", kind=k, cause=findings.cause_of(ev, p, q, k)), dict(art, problems=probs))
                 return
-        # (2) safety monitors / uninitialised reads on the whole control domain
+        # (2) safety monitors / uninitialised reads on the whole control domain.  A finding on a valuation inside
+        # the input region of a recorded known finding is reported once (it will match that finding) and the scan
+        # continues outside the region, so a different defect of the same primitive is still seen.
         qir = q._loopir_proc
+        region = findings.known_region(ev, p)
+        seen_in_region = False
         for val, rp in self.p_runs():
             if rp.abort or any(k in inputs.SAFETY_KINDS for k, _ in rp.mon):
                 self.stat("vacuous_valuations")
                 continue
-            ctrl, lay, cfg0 = val
-            try:
-                rq = interp.run_proc(qir, ctrl, lay, cfg0)
-            except ValueError:
+            in_region = region is not None and region(val)
+            if in_region and seen_in_region:
                 continue
-            except KeyError as ex:
-                self.violation(dict(base, oracle="safety", kind="unbound-variable", cause=findings.cause_of(ev, p, q, "unbound-variable", {"input": oracles.jsonable_val(val)})), dict(art, detail=repr(ex), input=oracles.jsonable_val(val)))
-                return
-            self.stat("valuations")
-            new = inputs.new_safety(rp, rq)
-            if rq.abort and not new:
-                new = [("unbound-variable" if rq.abort.startswith("unbound-variable") else "abort", rq.abort)]
-            if new:
-                self.violation(dict(base, oracle="safety", kind=new[0][0], cause=findings.cause_of(ev, p, q, new[0][0], {"input": oracles.jsonable_val(val)})),
-                               dict(art, monitors=[list(x) for x in new[:4]], input=oracles.jsonable_val(val)))
-                return
-            # uninitialised value where the source had a defined one
-            for nm, cells in rq.outs.items():
-                pc = rp.outs.get(nm)
-                if pc is None or len(pc) != len(cells):
-                    continue
-                for i, (a, b) in enumerate(zip(pc, cells)):
-                    if b is not None and b.has_undef() and not (a is not None and a.has_undef()):
-                        self.violation(dict(base, oracle="safety", kind="uninit", cause=findings.cause_of(ev, p, q, "uninit", {"input": oracles.jsonable_val(val)})),
-                                       dict(art, cell=f"{nm}@{i}", input=oracles.jsonable_val(val)))
-                        return
+            found = self._safety_on(ev, p, q, qir, val, rp, base, art)
+            if found is None:
+                continue
+            self.violation(*found)
+            if in_region:
+                seen_in_region = True
+                continue
+            return
         # (3) compiles, or is rejected by a documented backend check
         if self.unit.get("compile", True):
             r = oracles.try_compile(q)
@@ -72,6 +61,35 @@ class Oracle(BaseOracle):
                         self.stat("source_already_illformed")
                     else:
                         self.violation(dict(base, oracle="compile", kind=r[0], cause=findings.cause_of(ev, p, q, r[0])), dict(art, error=r[1]))
+
+    def _safety_on(self, ev, p, q, qir, val, rp, base, art):
+        """-> (sig, artefact) for the first safety finding of q on this valuation, or None"""
+        ctrl, lay, cfg0 = val
+        jv = oracles.jsonable_val(val)
+        try:
+            rq = interp.run_proc(qir, ctrl, lay, cfg0)
+        except ValueError:
+            return None
+        except KeyError as ex:
+            return (dict(base, oracle="safety", kind="unbound-variable", cause=findings.cause_of(ev, p, q, "unbound-variable", {"input": jv})),
+                    dict(art, detail=repr(ex), input=jv))
+        self.stat("valuations")
+        new = inputs.new_safety(rp, rq)
+        if rq.abort and not new:
+            new = [("unbound-variable" if rq.abort.startswith("unbound-variable") else "abort", rq.abort)]
+        if new:
+            return (dict(base, oracle="safety", kind=new[0][0], cause=findings.cause_of(ev, p, q, new[0][0], {"input": jv})),
+                    dict(art, monitors=[list(x) for x in new[:4]], input=jv))
+        # uninitialised value where the source had a defined one
+        for nm, cells in rq.outs.items():
+            pc = rp.outs.get(nm)
+            if pc is None or len(pc) != len(cells):
+                continue
+            for i, (a, b) in enumerate(zip(pc, cells)):
+                if b is not None and b.has_undef() and not (a is not None and a.has_undef()):
+                    return (dict(base, oracle="safety", kind="uninit", cause=findings.cause_of(ev, p, q, "uninit", {"input": jv})),
+                            dict(art, cell=f"{nm}@{i}", input=jv))
+        return None
 
     def p_wf_ok(self):
         if not hasattr(self, "_pwf"):
